@@ -60,6 +60,7 @@ ESCAPES = [
     "{x: y}", "{x}", "[x, y]", "x if y else __import__('sys')", "abs.__self__", "(x).__class__",
     "str.__mro__", "print(x)", "compile('1', 's', 'eval')", "x @ y", "x | y", "x << 2", "~x", "not x",
     "x is y", "x in (1, 2)", "x[1:2]", "*x", "lambda: 1", "(yield x)", "int.from_bytes", "hash(x)",
+    "len(str(x))", "pow(x, 2)", "sqrt(x)", "sum((x, y))", "input", "id", "samples", "max(x, key=samples)",
 ]
 
 
@@ -537,6 +538,14 @@ def run_shard(spec: Dict[str, Any]) -> Dict[str, Any]:
 
     col = Collector(max_hashes=2000000, hash_len=10)
     audit = Audit()
+    # history: another evaluator with extra functions existed in this process (a documented constructor option);
+    # it must not widen what a default evaluator accepts afterwards
+    try:
+        import math as _math
+
+        ExpressionEvaluator(allowed_funcs={"len": len, "pow": pow, "sqrt": _math.sqrt, "sum": sum}).compile("abs(x)", {"x"})
+    except BaseException:  # noqa: BLE001
+        pass
     ev = ExpressionEvaluator()
     if spec["kind"] == "enum":
         seen = set()
@@ -550,6 +559,7 @@ def run_shard(spec: Dict[str, Any]) -> Dict[str, Any]:
             check_source(src, "random", ev, ExpressionError, audit, col)
     elif spec["kind"] == "yaml":
         _yaml_path(col, audit)
+        _yaml_from_context_names(col, audit)
     elif spec["kind"] == "fuzz":
         from .fuzz_expr import run_child
 
@@ -561,6 +571,9 @@ def _yaml_path(col: Collector, audit: Audit) -> None:
     """The same verdicts must hold through the YAML `derive.parameter_sweep.parameters` path."""
     from semantiva.pipeline import Pipeline
 
+    from ..lib import observe
+
+    observe.ensure_registered()
     exprs = ESCAPES + ["str(object=__import__('os').getcwd())", "abs(k=x.real)", "min(1, k=open)", "2 * t", "abs(t) + 1"]
     for e in exprs:
         src = e.replace("x", "t") if e in ("2 * t",) else e
@@ -571,7 +584,7 @@ def _yaml_path(col: Collector, audit: Audit) -> None:
         }]
         info = classify(src.replace("t", "x") if src in ("2 * t", "abs(t) + 1") else src)
         built = False
-        with audit(True):
+        with audit(False):  # record only: building compiles the expression, which is an audited (and legitimate) event
             try:
                 Pipeline(cfg)
                 built = True
@@ -582,6 +595,31 @@ def _yaml_path(col: Collector, audit: Audit) -> None:
         if built and info["verdict"] in ("unsafe", "syntax"):
             col.add("accepted_unsafe", {"position": info.get("position", "syntax"), "kind": info.get("kind", "syntax"), "path": "yaml"},
                     case, observed="pipeline built", expected="configuration rejected")
+
+
+def _yaml_from_context_names(col: Collector, audit: Audit) -> None:
+    """A from_context variable declares the VARIABLE name; the context key it reads is not a name of the expression language."""
+    from semantiva.pipeline import Pipeline
+
+    for key, expr in itertools.product(["samples", "input", "vars", "len"], ["v + float(max({k}))", "max(v, key={k})", "{k}", "v if {k} else 1.0", "abs(v) + 1.0"]):
+        src = expr.format(k=key)
+        cfg = [{"processor": "FloatValueDataSource",
+                "derive": {"parameter_sweep": {"parameters": {"value": src}, "variables": {"v": {"from_context": key}}, "collection": "FloatDataCollection"}}}]
+        uses_key = "{k}" in expr
+        built = False
+        with audit(False):  # record only: building compiles the expression, which is an audited (and legitimate) event
+            try:
+                Pipeline(cfg)
+                built = True
+            except BaseException:  # noqa: BLE001
+                pass
+        case = {"yaml_sweep_expr": src, "from_context_key": key}
+        col.count(case, ["yaml_from_context", "built" if built else "refused"], True, key="yamlfc:" + key + ":" + src)
+        if built and uses_key:
+            col.add("accepted_unsafe", {"position": "other", "kind": "Name:context_key_of_from_context_variable", "path": "yaml"},
+                    case, observed="pipeline built", expected="configuration rejected")
+        if not built and not uses_key:
+            col.labels["info:yaml_from_context_control_refused"] += 1
 
 
 def replay(case: Dict[str, Any]) -> List[Dict[str, Any]]:
@@ -622,4 +660,4 @@ def shrink_candidates(case: Dict[str, Any]) -> Iterator[Dict[str, Any]]:
 
 
 def label_requirements(tier: str) -> Dict[str, Any]:
-    return {"fuzz": 15000, "wide": 3000, "evaluated": 2000, "history_recompile": 10000, "verdict:unsafe": 0.2, "verdict:safe": 0.01, "d3": 1000, "esc2": 1000}
+    return {"built": 5, "fuzz": 15000, "wide": 3000, "evaluated": 2000, "history_recompile": 10000, "verdict:unsafe": 0.2, "verdict:safe": 0.01, "d3": 1000, "esc2": 1000}
